@@ -555,6 +555,28 @@ int main(int argc, char **argv)
     auto cfgs = ownConfigs();
     sentinel();
 
+    // 0. corpus: the rows of tests/qxmppcarbonmanager (received1, sent1, received-wrong-from, sent-wrong-from) and the
+    //    CVE-2017-5603 forgery (a contact wraps a message "from" somebody else), on both generations
+    for (bool v2 : { true, false }) {
+        auto rig = newRig(v2, cfgs[0]);
+        const QString juliet = "juliet@capulet.example/balcony";
+        MsgNode recv = goodInner(juliet, "romeo@montague.example/garden", "What man art thou that, thus bescreen'd in night, so stumblest on my counsel?");
+        MsgNode sent = goodInner("romeo@montague.example/home", juliet, "Neither, fair saint, if either thee dislike.");
+        MsgNode forged = goodInner(juliet, "romeo@montague.example/garden", "Please send the money to mallory");
+        struct Row { QString from; QString to; Child kid; };
+        for (auto &r : std::vector<Row> {
+                 { "romeo@montague.example", "romeo@montague.example/home", wrap("received", { fwd({ recv }) }) },
+                 { "romeo@montague.example", "romeo@montague.example/garden", wrap("sent", { fwd({ sent }) }) },
+                 { "not-romeo@montague.example", "romeo@montague.example/home", wrap("received", { fwd({ recv }) }) },
+                 { "not-romeo@montague.example", "romeo@montague.example/garden", wrap("sent", { fwd({ sent }) }) },
+                 { "mallory@evil.example/x", "romeo@montague.example/home", wrap("received", { fwd({ forged }) }) },
+                 { "romeo@montague.example/other", "romeo@montague.example/home", wrap("sent", { fwd({ forged }) }) } }) {
+            Outer o; o.from = r.from; o.to = r.to; o.kids = { r.kid };
+            inject(*rig, o, 0);
+            stat("corpus_stanzas");
+        }
+    }
+
     // 1. systematic: every sender variant x every wrapper arrangement, both generations, every own-JID configuration
     long long systematic = 0;
     for (bool v2 : { true, false }) {
